@@ -84,20 +84,18 @@ func c10CheckDec(c c10DecCase) h.Result {
 		// two independent statements of the same definition must agree
 		return r.Fail("harness:oracle-disagreement", "in=%x bytes-rule=%v decode-rule=%v", in, canon, di.YCanon && !di.XZeroSign).Result()
 	}
-	primeOrder := di.OK && ref.IsTorsionFree(di.P) && !di.P.IsIdentity()
+	small := di.OK && ref.IsSmallOrder(di.P)
 	switch {
 	case !di.OK:
 		r.Class("off-curve")
 	case !di.Canonical:
 		r.Class("non-canonical")
-	case ref.IsSmallOrder(di.P):
-		r.Class("torsion")
-	case !primeOrder:
-		r.Class("mixed-order")
+	case small:
+		r.Class("canonical-torsion")
 	default:
-		r.Class("canonical-prime-order")
+		r.Class("canonical-large-order")
 	}
-	r.NT(!di.OK || !di.Canonical || !primeOrder)
+	r.NT(!di.OK || !di.Canonical || small)
 	var want []byte
 	if di.OK {
 		want = di.P.Encode()
@@ -494,7 +492,7 @@ func c10CheckMont(c c10MontCase) h.Result {
 	default:
 		r.Class("on-curve")
 	}
-	r.NT(!ok || in[31]&0x80 != 0 || raw.Cmp(ref.P) >= 0 || u.Sign() == 0 || !ref.IsTorsionFree(want))
+	r.NT(!ok || in[31]&0x80 != 0 || raw.Cmp(ref.P) >= 0 || u.Sign() == 0 || ref.IsSmallOrder(want))
 
 	var mp curve.MontgomeryPoint
 	if _, err := mp.SetBytes(in); err != nil {
